@@ -19,9 +19,18 @@ SPECS["C05"] = {
         {"name": "VerifC05_ExecuteFrame", "quick": {"params": lengths(12)}, "thorough": {"params": lengths(20)}},
         {"name": "VerifC05_NatsHandler", "quick": {"params": lengths(10)}, "thorough": {"params": lengths(16)}},
     ])],
+    "level_text": "Bounded symbolic model checking of the real receive paths: for every buffer length up to the bound and every byte content (and both capacity shapes) each entry point is executed symbolically from go/ssa; every slice/index/make/nil run-time check and every assertion is a z3 query, so 'no panic, value or error, terminates' holds for all inputs inside the bound. Outside: longer buffers, allocation sizes above 40 are represented by one witness per path, real sockets.",
+    "level_note": "Trusted: go/ssa construction, the gose interpreter (validated per run by executing sampled path witnesses natively and comparing coverage labels), z3. Stubs: logrus (no-op), fmt (host formatting), errors.Is/As (chain walk), sync primitives (engine).",
     "bounds": {"quick": "buffer length 0..10-16 bytes depending on the entry point (one engine process per length), all byte values, capacity = length or length+3",
                "thorough": "buffer length 0..16-24 bytes"},
     "assumptions": [],
 }
 
 OVERLAYS = {}
+
+HOOK_COMMITS = []
+
+NOT_APPLICABLE = {
+    "C10": "The property is about the pigeon-generated PEG interpreter applied to arbitrary IDL text and a render/parse round trip for which no renderer exists; the recogniser (rule tables built in init, backtracking matcher over interface{} stacks, regexp, strconv.Unquote) has no bounded SMT encoding within reach and path-by-path symbolic execution explodes at every ordered choice. See DESIGN.md §7.",
+    "C19": "2-safety hyper-property of whole compiler runs (map-iteration seeds, cwd, absolute paths, time, file-system order, goimports); needs the complete generators and their file I/O, which the engine cannot encode; the anchored pure helpers contain no map iteration for a solver to decide. See DESIGN.md §7.",
+}
